@@ -17,7 +17,14 @@ type sites struct {
 
 func collect(p *Prog) *sites {
 	s := &sites{}
-	p.walkAll(func(e *Expr) { s.exprs = append(s.exprs, e) }, func(st Stmt) { s.stmts = append(s.stmts, st) },
+	p.walkAll(func(e *Expr) {
+		// the older mutations work on expressions of basic types (a range
+		// clause over an integer, for one, is outside the supported subset)
+		if i := (*e).inf(); i.Typed && i.T.isComp() {
+			return
+		}
+		s.exprs = append(s.exprs, e)
+	}, func(st Stmt) { s.stmts = append(s.stmts, st) },
 		func(b *[]Stmt) { s.blocks = append(s.blocks, b) })
 	return s
 }
